@@ -651,6 +651,12 @@ func (c *EvalCtx) evalCall(e *ECall) Val {
 		v := c.eval(e.Args[0])
 		eng.ufun("dur_string", "(Int) "+eng.strSort())
 		return Val{K: KScalar, T: types.Typ[types.String], S: "(dur_string " + v.S + ")"}
+	case "backing":
+		v := c.eval(e.Args[0])
+		if v.K != KSlice {
+			c.fail("backing() needs a slice")
+		}
+		return intVal(v.S)
 	case "tagof":
 		v := c.eval(e.Args[0])
 		if v.K != KIface {
